@@ -29,7 +29,10 @@ func Replay(r *rt.Run) error {
 	num := func(m map[string]any, k string) int { v, _ := m[k].(float64); return int(v) }
 	str := func(m map[string]any, k string) string { v, _ := m[k].(string); return v }
 	pt := func(m map[string]any) Pt {
-		p := Pt{T: num(m, "t"), K: str(m, "k"), V: num(m, "v"), H: str(m, "h"), I: num(m, "i")}
+		p := Pt{T: num(m, "t"), K: str(m, "k"), V: num(m, "v"), H: str(m, "h"), I: num(m, "i"), R: str(m, "r"), S: num(m, "s")}
+		if pg, ok := m["pg"].(bool); ok && !pg {
+			p.NoG = true
+		}
 		if p.K == "float" {
 			p.V /= Scale
 		}
@@ -51,12 +54,12 @@ func Replay(r *rt.Run) error {
 			if as := str(m, "out"); as != c.Fn {
 				c.As = as
 			}
-			j = &Job{Cfg: c, Mode: str(m, "mode"), Phase: "replay"}
+			j = &Job{Cfg: c, Mode: str(m, "mode"), Phase: "replay", Base: str(m, "base")}
 			if j.Mode == "window" {
 				j.Mode = "batch"
 			}
 		case "Batch":
-			b := Batch{G: str(m, "g"), Tmax: num(m, "tmax")}
+			b := Batch{G: str(m, "g"), Tmax: num(m, "tmax"), Base: j.Base}
 			ps, _ := m["pts"].([]any)
 			for _, x := range ps {
 				b.Pts = append(b.Pts, pt(x.(map[string]any)))
